@@ -269,8 +269,9 @@ def run_grid_point(case):
     if case['fn'] == 'ADDRESS':
         tr = addr_tr()
         ex = tr.executor()
-        ex.set_cells([wbk.Cell('S', 'A', '1', case['r']), wbk.Cell('S', 'B', '1', case['c'])])
-        o = tr.get('S', 'C', '1', ex)
+        o = wbk.outcome(lambda: ex.set_cells([wbk.Cell('S', 'A', '1', case['r']), wbk.Cell('S', 'B', '1', case['c'])]))
+        if o[0] == 'value':
+            o = tr.get('S', 'C', '1', ex)
         exp = f"${letters(case['c'])}${case['r']}"
         if o[0] == 'value' and o[1] == exp:
             return []
